@@ -624,6 +624,13 @@ func master(cfg *harness.Config, rep *harness.Report) {
 		if cfg.Quick() {
 			sizes = []int{chunk + 1}
 		}
+		if cfg.Quick() {
+			// exact multiples of the chunk size (the sizes a growing bbolt file takes), one below and a
+			// single byte: the fault-free move only (the thorough tier interrupts them at every chunk)
+			for _, sz := range []int{1, chunk - 1, chunk, 2 * chunk} {
+				jobs = append(jobs, job{Old: 1, New: 2, Seed: 1, Order: "AB", Torn: -1, BigFile: sz})
+			}
+		}
 		for _, sz := range sizes {
 			n := sz/chunk + 1
 			jobs = append(jobs, job{Old: 1, New: 2, Seed: 1, Order: "AB", Torn: -1, BigFile: sz})
